@@ -17,6 +17,7 @@ type MatchRequest struct {
 	final    bool
 	sort     bool
 	revision revision
+	seq      int
 }
 
 // Matcher is responsible for performing search
@@ -31,6 +32,7 @@ type Matcher struct {
 	slab           []*util.Slab
 	mergerCache    map[string]*Merger
 	revision       revision
+	resetSeq       int
 }
 
 const (
@@ -71,7 +73,11 @@ func (m *Matcher) Loop() {
 				}
 				switch val := val.(type) {
 				case MatchRequest:
-					request = val
+					// Both a retry and a reset request can be pending.
+					// Serve the most recent one.
+					if request.pattern == nil || val.seq > request.seq {
+						request = val
+					}
 				default:
 					panic(fmt.Sprintf("Unexpected type: %T", val))
 				}
@@ -249,7 +255,8 @@ func (m *Matcher) Reset(chunks []*Chunk, patternRunes []rune, cancel bool, final
 	} else {
 		event = reqRetry
 	}
-	m.reqBox.Set(event, MatchRequest{chunks, pattern, final, sort, revision})
+	m.resetSeq++
+	m.reqBox.Set(event, MatchRequest{chunks, pattern, final, sort, revision, m.resetSeq})
 }
 
 func (m *Matcher) Stop() {
